@@ -724,6 +724,40 @@ def _mk_region(self, px0, py0, px1, py1):
     return native_region(self, px0, py0, px1, py1)
 
 
+def _mk_bbox_region(self, px0, py0, px1, py1):
+    """a BoundingBox region (any CRS): its POLYGON has the ghost pixel image [px0,px1]x[py0,py1]; projecting the BOX itself
+    (corners to the grid's CRS, then into the pixel plane) gives something that merely contains that image"""
+    BB = repo(GEOM).BoundingBox
+    if not symbolic():
+        r = native_region(self, px0, py0, px1, py1)
+        return BB(*r.boundingbox.bbox, r.crs)
+    gbox = self
+
+    class BoxWithImage(BB):
+        @property
+        def polygon(self_inner):
+            return RegionWithImage(gbox, (px0, py0, px1, py1), gbox.crs)
+
+        def to_crs(self_inner, crs, *a, **k):
+            return self_inner
+
+        def transform(self_inner, A, *a, **k):
+            big = RegionWithImage(gbox, (px0, py0, px1, py1), gbox.crs)._bigger("box-corners")
+            return BB(*big.px, None)
+
+        def __vc_src__(self_inner, model, c):
+            from pyvc.engine import to_src
+
+            return f"R('contracts.geobox_c:native_bbox_region')({to_src(gbox, model, c)}, {', '.join(to_src(v, model, c) for v in (px0, py0, px1, py1))})"
+
+    return BoxWithImage(0.0, 0.0, 1.0, 1.0, gbox.crs)
+
+
+def native_bbox_region(g, px0, py0, px1, py1):
+    r = native_region(g, px0, py0, px1, py1)
+    return type(r.boundingbox)(*r.boundingbox.bbox, r.crs)
+
+
 contract(
     f"{GBX}:GeoBoxBase.project",
     ["C16"],
@@ -762,7 +796,10 @@ def _enclosing_oracle(args, run):
     kind, r = run()
     if kind == "raise":
         return [f"no-exception:{type(r).__name__}"]
-    pts = [(~g.affine) * (x, y) for x, y in shapely.get_coordinates(region.geom).tolist()]
+    shape_ = region.polygon.geom if not hasattr(region, "geom") else region.geom
+    if not hasattr(region, "geom") and region.crs != g.crs:
+        shape_ = region.polygon.to_crs(g.crs).geom
+    pts = [(~g.affine) * (x, y) for x, y in shapely.get_coordinates(shape_).tolist()]
     px0, px1 = min(p[0] for p in pts), max(p[0] for p in pts)
     py0, py1 = min(p[1] for p in pts), max(p[1] for p in pts)
     fails = []
@@ -782,7 +819,10 @@ def _enclosing_oracle(args, run):
 contract(
     f"{GBX}:GeoBox.enclosing",
     ["C16"],
-    inputs=dict(self=GEOBOX(), px0=Real(), py0=Real(), px1=Real(), py1=Real(), region=Derived(_mk_region, "region whose pixel image is [px0,px1]x[py0,py1]")),
+    inputs=[
+        dict(self=GEOBOX(), px0=Real(), py0=Real(), px1=Real(), py1=Real(), region=Derived(_mk_region, "region whose pixel image is [px0,px1]x[py0,py1]")),
+        dict(self=GEOBOX(), px0=Real(), py0=Real(), px1=Real(), py1=Real(), region=Derived(_mk_bbox_region, "BoundingBox whose polygon's pixel image is [px0,px1]x[py0,py1]")),
+    ],
     requires=[lambda self, px0, py0, px1, py1: And(px0 <= px1, py0 <= py1, _nondegenerate(self))],
     ensures=[
         ("lies on the source grid (whole-pixel translation of self, same CRS)", _enclosing_grid),
@@ -790,7 +830,7 @@ contract(
         ("exceeds the region by less than one pixel per side", _enclosing_tight),
     ],
     native_oracle=_enclosing_oracle,
-    note="the region is a stand-in whose image in the pixel plane is a ghost rectangle (any region, any CRS: the projection itself is assumed); natively a real triangle with that image",
+    note="the region is a stand-in whose image in the pixel plane is a ghost rectangle (any region, any CRS: the projection itself is assumed), given as a geometry or as a BoundingBox (whose POLYGON must be projected: its corners alone over-approximate); natively a real triangle / its bounding box",
 )
 
 # =====================================================================================================
